@@ -460,10 +460,14 @@ var c05ConstExprs = []string{"range(9223372036854775806, 9223372036854775807)|le
 	"range(-9223372036854775806, -9223372036854775807, -1)|length", "range(-9223372036854775800, -9223372036854775807 - 1, -5)|length", "range(9223372036854775807, 9223372036854775807)|join(',')",
 	"range(5, 1, 0)|length", "range(1, 5, 0)|length", "range(3, 3, 0)|length", "9223372036854775807 + 1", "-9223372036854775807 - 2", "9223372036854775807 * 2", "9223372036854775807|abs", "(-9223372036854775807 - 1)|abs",
 	"'x'|slice(9223372036854775807)", "'x'|slice(-9223372036854775807, 9223372036854775807)", "[1, 2]|slice(1, 9223372036854775807)|length", "[1, 2]|batch(9223372036854775807)|length", "'ab'|format(9223372036854775807)",
-	"1|round(9223372036854775807)", "1.5|number_format(2147483647)|length < 0", "random(9223372036854775807) >= 0", "random(-9223372036854775807) <= 0", "cycle([1, 2], 9223372036854775807)", "cycle([1, 2], -9223372036854775807)"}
+	"1|round(9223372036854775807)", "1.5|number_format(2147483647)|length < 0", "random(9223372036854775807) >= 0", "random(0, 9223372036854775807) >= 0", "random(-5000000000000000000, 5000000000000000000) < 6000000000000000000", "random(-9223372036854775807, 9223372036854775807) is defined", "random(-9223372036854775807, 0) <= 0", "random(-9223372036854775807) <= 0", "cycle([1, 2], 9223372036854775807)", "cycle([1, 2], -9223372036854775807)"}
+
+var c05BlockSources = []string{"{% block a %}[{% block a %}x{% endblock %}]{% endblock %}", "{% block a %}<{% block b %}({% block a %}x{% endblock %}){% endblock %}>{% endblock %}", "{% block a %}X{% endblock %}-{% block a %}Y{% endblock %}",
+	"{% if true %}{% block a %}X{% endblock %}{% endif %}-{% block a %}Y{% endblock %}", "{% extends 't1' %}{% block b %}1{% block b %}2{% endblock %}{% endblock %}", "{% for i in [1, 2] %}{% block a %}{{ i }}{% block a %}y{% endblock %}{% endblock %}{% endfor %}",
+	"{% block a %}{% block b %}{% endblock %}{% endblock %}{% block b %}{% block a %}{% endblock %}{% endblock %}"}
 
 func TestC05Shapes(t *testing.T) {
-	r := NewRec(t, "C05", "bounded exhaustive: ~125 unary expressions (every operator, filter, function and test of the core extension, attribute/index access incl. x[undefined]) x ~60 Go value shapes (nil, scalars of every width, strings, untyped and typed slices (also named ones and slices of error / Stringer / slices / maps), arrays (also of interface{}), untyped and typed maps incl. non-string keys, structs, pointers incl. nil, time, []byte, named types, Stringer), and ~50 binary expressions x all pairs of 22 representative shapes (incl. strings hostile as patterns/separators/formats and 60-element lists of scalars, lists and maps), each in print / if / for / set position (the unary ones also as the template name of an include); 25 expressions over constants at the edges of the integer range; non-trivial = the value is not a map[string]interface{} / []interface{} / string / int")
+	r := NewRec(t, "C05", "bounded exhaustive: ~125 unary expressions (every operator, filter, function and test of the core extension, attribute/index access incl. x[undefined]) x ~60 Go value shapes (nil, scalars of every width, strings, untyped and typed slices (also named ones and slices of error / Stringer / slices / maps), arrays (also of interface{}), untyped and typed maps incl. non-string keys, structs, pointers incl. nil, time, []byte, named types, Stringer), and ~50 binary expressions x all pairs of 22 representative shapes (incl. strings hostile as patterns/separators/formats and 60-element lists of scalars, lists and maps), each in print / if / for / set position (the unary ones also as the template name of an include); 29 expressions over constants at the edges of the integer range; 7 sources that define one block name twice; non-trivial = the value is not a map[string]interface{} / []interface{} / string / int")
 	defer r.Flush()
 	r.SetExhaustive()
 	shapes := c05Shapes()
@@ -485,6 +489,16 @@ func TestC05Shapes(t *testing.T) {
 		r.Case(ex, true, ex)
 		if err := checkC05Shape(c); err != nil {
 			r.FailEnumKey(t, "C05.shape", panicKey(err), c, err)
+		}
+	}
+	// whole sources that define one block name twice (nested in itself, through another block,
+	// side by side, under a condition): an error or output, never a runaway recursion
+	for _, src := range c05BlockSources {
+		c := C05SrcCase{Templates: fuzzTemplates, Src: BStr(src), Ctx: fuzzCtx(0)}
+		journal(t.Name(), c)
+		r.Case(src, true, src)
+		if err := checkC05Src(c); err != nil {
+			r.FailEnumKey(t, "C05.src", src, c, err)
 		}
 	}
 	pairShapes := []*E{Null(), Int(0), Int(2), Int(-1), Str(""), Str("ab"), Str("3"), List(), List(Int(1), Int(2)), Hash([]string{"k"}, []*E{Int(1)}),
